@@ -916,7 +916,16 @@ class Inliner:
             line = (rest[0] or {}).get("l") if rest and isinstance(rest[0], dict) else None
             handler = {"t": "...", "l": line, "synthetic": True,
                        "body": {"k": "Block", "l": line, "s": cleanup() + [{"k": "Throw", "l": line, "rethrow": True}]}}
-            new = [{"k": "Try", "l": line, "synthetic": True, "body": {"k": "Block", "l": line, "s": new}, "handlers": [handler]}]
+            # a final `return <local or constant>` leaves the try block first (nothing can throw between the two)
+            after = []
+            if new and isinstance(new[-1], dict) and new[-1].get("k") == "Return" and \
+                    sum(1 for y in new for x in walk(y) if x.get("k") == "Return") == 1:
+                e_ = new[-1].get("e")
+                u_ = ir.unwrap_all_casts(e_) if e_ is not None else None
+                if e_ is None or (isinstance(u_, dict) and ((u_.get("k") == "Ref" and u_.get("d") == "local") or ir.const_value(u_) is not None)):
+                    after = [new[-1]]
+                    new = new[:-1]
+            new = [{"k": "Try", "l": line, "synthetic": True, "body": {"k": "Block", "l": line, "s": new}, "handlers": [handler]}] + after
         return new + final
 
     def _wrap(self, s, sts):
